@@ -253,7 +253,66 @@ def _r1_scalar_decide(ctx, f, store, tally, loc, rowname, D, rets, ok, other, co
 @rule('C13', 'C13-R1', 'the consensus is built only from positions where the maximum vote is attained exactly once: the mask indexing both '
                        'returns equals "unique maximum" on every abstract vote row')
 def r1(ctx):
+    return _r1_impl(ctx)
+
+
+def _r1_all_results_from_the_tally(ctx, f):
+    """every non-empty result of get_consensus is computed from the vote accumulator (the N filter and the tie mask sit between the fragment calls and the result)"""
+    acc = None
+    for s_ in walk_no_nested(f):
+        if isinstance(s_, ast.Assign) and len(s_.targets) == 1 and isinstance(s_.targets[0], ast.Name) and isinstance(s_.value, ast.Call) and (dotted(s_.value.func) or '').endswith('defaultdict') \
+                and s_.value.args and 'consensii_default_vector' in src(s_.value.args[0]):
+            acc = s_.targets[0].id
+    if acc is None:
+        acc = 'consensii'
+    derived = {acc}
+    changed = True
+    while changed:
+        changed = False
+        for s_ in walk_no_nested(f):
+            tg = []
+            if isinstance(s_, ast.Assign):
+                tg = [n_.id for t_ in s_.targets for n_ in ast.walk(t_) if isinstance(n_, ast.Name)]
+                val = s_.value
+            elif isinstance(s_, ast.For):
+                tg = [n_.id for n_ in ast.walk(s_.target) if isinstance(n_, ast.Name)]
+                val = s_.iter
+            else:
+                continue
+            if names_in(val) & derived and not set(tg) <= derived:
+                derived |= set(tg)
+                changed = True
+
+    def empty(e):
+        if isinstance(e, ast.Tuple):
+            return all(empty(x) for x in e.elts)
+        if isinstance(e, ast.Constant) and e.value is None:
+            return True
+        if isinstance(e, ast.Call) and dotted(e.func) in ('dict', 'list', 'tuple') and not e.args and not e.keywords:
+            return True
+        return isinstance(e, (ast.Dict, ast.List)) and not (e.keys if isinstance(e, ast.Dict) else e.elts)
+    n = 0
+    for r in [x for x in walk_no_nested(f) if isinstance(x, ast.Return) and x.value is not None]:
+        n += 1
+        if empty(r.value) or names_in(r.value) & derived:
+            continue
+        direct = any(isinstance(c, ast.Call) and isinstance(c.func, ast.Attribute) and c.func.attr == 'get_consensus' for c in ast.walk(r.value))
+        src_names = names_in(r.value)
+        via = [s_ for s_ in walk_no_nested(f) if isinstance(s_, ast.Assign) and any(isinstance(t_, ast.Name) and t_.id in src_names for t_ in s_.targets)
+               and any(isinstance(c, ast.Call) and isinstance(c.func, ast.Attribute) and c.func.attr == 'get_consensus' for c in ast.walk(s_.value))]
+        filt = any(isinstance(c_, ast.Constant) and c_.value == 'N' for x_ in [r.value] + [v_.value for v_ in via] for c_ in ast.walk(x_))
+        if (direct or via) and not filt:
+            ctx.emit('C13-R1', False, MOLECULE, r, f'`{src(r)[:140]}` hands back the calls of a fragment directly: they pass neither the N filter nor the tie mask of the tally (an N call, or the ("N", 0) of two '
+                     f'disagreeing mates of equal quality, is reported as consensus base)', key='result-from-tally', what='get_consensus: a result is returned that was not computed from the vote matrix')
+        else:
+            ctx.emit('C13-R1', False, MOLECULE, r, f'`{src(r)[:140]}`: not recognised as empty or as computed from the vote accumulator `{acc}`', key='result-from-tally', undecided=True)
+        return
+    ctx.emit('C13-R1', True, MOLECULE, f, f'{n} returns: each is empty or computed from the vote accumulator `{acc}`', key='result-from-tally')
+
+
+def _r1_impl(ctx):
     f = ctx.fn(MOLECULE, FN)
+    _r1_all_results_from_the_tally(ctx, f)
     env = {s.targets[0].id: s.value for s in f.body if isinstance(s, ast.Assign) and isinstance(s.targets[0], ast.Name)}
     # a returned local that holds the consensus dictionary stands for its defining expression
     import copy as _copy
@@ -369,6 +428,26 @@ def r2(ctx):
         raise AnalysisError('get_consensus: loop over the fragments not found')
     fl = outer[0]
     inner = [l for l in walk_no_nested(fl) if isinstance(l, ast.For) and l is not fl and 'get_consensus' in src(l.iter)]
+    if not inner:
+        # the calls of a fragment looked up in a table that is filled on demand (`if key not in table: table[key] = fragment.get_consensus(..)`): a memo across fragments
+        fills = [s_ for s_ in walk_no_nested(fl) if isinstance(s_, ast.Assign) and len(s_.targets) == 1 and isinstance(s_.targets[0], ast.Subscript) and isinstance(s_.targets[0].value, ast.Name)
+                 and isinstance(s_.value, ast.Call) and isinstance(s_.value.func, ast.Attribute) and s_.value.func.attr == 'get_consensus']
+        for fill in fills:
+            tab, key = fill.targets[0].value.id, fill.targets[0].slice
+            inner = [l for l in walk_no_nested(fl) if isinstance(l, ast.For) and l is not fl and src(l.iter).replace(' ', '').startswith(f'{tab}[{src(key)}]')]
+            if len(inner) == 1:
+                kdef = [s_.value for s_ in walk_no_nested(fl) if isinstance(s_, ast.Assign) and isinstance(key, ast.Name) and any(isinstance(t_, ast.Name) and t_.id == key.id for t_ in s_.targets)]
+                kexpr = kdef[-1] if kdef else key
+                attrs = {n_.attr for n_ in ast.walk(kexpr) if isinstance(n_, ast.Attribute)}
+                outside = not any(s_ is fill for s_ in walk_no_nested(fl))
+                has_q = bool(attrs & {'query_qualities', 'qual', 'query_alignment_qualities', 'qualities'})
+                if not has_q:
+                    ctx.emit('C13-R2', False, MOLECULE, fill, f'the calls of a fragment are remembered under the key `{src(kexpr)[:140]}` and re-used for every later fragment with the same key: the key does not contain the '
+                             f'base qualities, so a fragment with the same read sequences but other qualities gets the arbitration (higher-quality mate) of the earlier fragment instead of its own',
+                             key='fragment-calls-not-shared', what='get_consensus: fragment calls are memoised under a key that does not determine them')
+                else:
+                    ctx.emit('C13-R2', False, MOLECULE, fill, f'the calls of a fragment are remembered under the key `{src(kexpr)[:140]}`: cannot show that the key determines the calls', key='fragment-calls-not-shared', undecided=True)
+                break
     if len(inner) != 1:
         raise AnalysisError('get_consensus: loop over the fragment consensus not found')
     il = inner[0]
